@@ -164,8 +164,12 @@ SENTENCES = {"xa": [6, 2], "xb": [6, 3], "yyc": [6, 6, 4], "zd": [6, 5], "d": [5
 
 def render(cfg, pkg):
     """cfg: {rx, ry, rz, rs, methods:[{name, rule, params:[type], rets:[type], body}]}"""
-    o = [DECLS.replace("package u", "package " + pkg).replace("type Error struct {\n\tToken    Token\n\tExpected []int\n}\n", ""),
-         "type Parser struct{ lox }", HARNESS]
+    decls = DECLS.replace("package u", "package " + pkg).replace("type Error struct {\n\tToken    Token\n\tExpected []int\n}\n", "")
+    harness = HARNESS
+    if cfg.get("imports"):
+        decls = decls.replace("package " + pkg + "\n", "package " + pkg + "\n\nimport (\n" + "".join("\t%s \"xv/%s/%s\"\n" % (a, pkg, pth) for a, pth in cfg["imports"]) + ")\n", 1)
+        harness = harness.replace("\tcase Token:\n\t\treturn x.Ty", cfg["mark_cases"] + "\tcase Token:\n\t\treturn x.Ty", 1)
+    o = [decls, "type Parser struct{ lox }", harness]
     for m in cfg["methods"]:
         params = ", ".join("a%d %s" % (i, t) for i, t in enumerate(m["params"]))
         rets = m["rets"]
@@ -247,8 +251,22 @@ def configs(quick, rng, tix=None, rel=None):
         add(rid, "*Node", "*Node", "*Node", ms)
         out[-1]["lox"] = lox2
         out[-1]["extra_go"] = "type Disc struct{}\n\nfunc (d *Disc) Discard() bool { return false }\n"
+    # rule result types from two imported packages that have the same package *name*
+    MK["*fast.Node"] = "&fast.Node{M: %s}"
+    MK["*bast.Node"] = "&bast.Node{M: %s}"
+    for pid, px, pys in (("imports:same-name-packages-concrete", "*fast.Node", "[]*bast.Node"), ("imports:same-name-packages-iface", "Expr", "[]*bast.Node")):
+        ms = base_methods("*fast.Node", "*bast.Node", "Dict", px, pys, "Dict")
+        add(pid, "*fast.Node", "*bast.Node", "Dict", ms)
+        out[-1]["imports"] = [("fast", "front/ast"), ("bast", "back/ast")]
+        out[-1]["subpkgs"] = {"front/ast/ast.go": "package ast\n\ntype Node struct{ M int }\n\nfunc (n *Node) Mark() int { return n.M }\n",
+                               "back/ast/ast.go": "package ast\n\ntype Node struct{ M int }\n\nfunc (n *Node) Mark() int { return n.M }\n"}
+        out[-1]["mark_cases"] = ("\tcase *fast.Node:\n\t\tif x == nil {\n\t\t\treturn 0\n\t\t}\n\t\treturn x.M\n"
+                                 "\tcase *bast.Node:\n\t\tif x == nil {\n\t\t\treturn 0\n\t\t}\n\t\treturn x.M\n"
+                                 "\tcase []*fast.Node:\n\t\treturn marks(len(x), func(i int) any { return x[i] })\n"
+                                 "\tcase []*bast.Node:\n\t\treturn marks(len(x), func(i int) any { return x[i] })\n")
+        out[-1]["foreign"] = True
     if quick:
-        keep = [c for c in out if c["id"].startswith("layout") or c["id"].startswith("tok") or c["id"].startswith("compile")]
+        keep = [c for c in out if c["id"].startswith("layout") or c["id"].startswith("imports") or c["id"].startswith("tok") or c["id"].startswith("compile")]
         rest = [c for c in out if c not in keep]
         # always keep the configurations where the term's value type is assignable to, but not identical with, the parameter type
         def interesting(c):
@@ -290,6 +308,9 @@ def c06(tier):
         os.makedirs(d, exist_ok=True)
         open(os.path.join(d, "g.lox"), "w").write(c.get("lox", LOX))
         open(os.path.join(d, "p.go"), "w").write(render(c, pkg))
+        for rel, txt in (c.get("subpkgs") or {}).items():
+            os.makedirs(os.path.dirname(os.path.join(d, rel)), exist_ok=True)
+            open(os.path.join(d, rel), "w").write(txt)
         q = subprocess.run([lox, d], cwd=mod, env=GOENV, stdout=subprocess.PIPE, stderr=subprocess.PIPE, timeout=120)
         c["pkg"], c["dir"] = pkg, d
         c["ok"] = q.returncode == 0
@@ -361,11 +382,13 @@ def c06(tier):
                 marks.append([1 if r["ok"] else 0] + (r["got"] or []))
                 exp.append([1] + e[k])
         ob = "none"
-        if c.get("lox"):
+        if c.get("foreign"):
+            ob = "must-succeed"      # types outside the universe of Binding.tla: every production is bound by construction
+        elif c.get("lox"):
             ob = "other-grammar"     # not the skeleton Binding.tla knows: only "if it succeeds it compiles" is asserted
         elif "onbounds" in c["id"]:
             ob = "ok" if c["id"].endswith("onbounds-ok") or c["id"].endswith("onbounds-returns") else "bad"
-        bcases.append({"id": c["id"], "onbounds": ob, "methods": ms, "ruletype": {"s": tix["int"], "x": tix[c["rx"]], "y": tix[c["ry"]], "z": tix[c["rz"]]},
+        bcases.append({"id": c["id"], "onbounds": ob, "methods": ms, "ruletype": {"s": tix["int"], "x": tix.get(c["rx"], tix["int"]), "y": tix.get(c["ry"], tix["int"]), "z": tix.get(c["rz"], tix["int"])},
                        "ok": c["ok"], "built": bool(c.get("built")), "marks": marks, "expmarks": exp})
     sd = spec_dir(sc, "spec-bind")
     json.dump({"types": UNIVERSE, "assignable": rel["assignable"], "identical": rel["identical"], "token": tix["Token"],
